@@ -23,7 +23,8 @@ def run(seed_dir, props=None, tier="quick"):
 if __name__ == "__main__":
     ids = [a for a in sys.argv[1:] if not a.startswith("--")]
     extra = [a[8:].split(",") for a in sys.argv[1:] if a.startswith("--props=")]
-    path = os.path.join(HERE, "seeded", "RESULTS.json")
+    out = [a[6:] for a in sys.argv[1:] if a.startswith("--out=")]
+    path = out[0] if out else os.path.join(HERE, "seeded", "RESULTS.json")
     results = json.load(open(path)) if os.path.exists(path) else {}
     for sd in sorted(glob.glob(os.path.join(HERE, "seeded", "C*-*"))):
         sid = os.path.basename(sd)
